@@ -227,7 +227,7 @@ func (x *Exec) inline(fr *Frame, st *State, callee *ssa.Function, args []Val, bi
 
 // calleeNames gives the parameter names a contract may use.
 func calleeNames(ct *FuncContract, callee *ssa.Function, c *ssa.CallCommon) (names []string, typs []types.Type) {
-	if callee != nil && !c.IsInvoke() {
+	if callee != nil && !c.IsInvoke() && len(callee.Params) > 0 {
 		for i, p := range callee.Params {
 			n := p.Name()
 			if n == "" || n == "_" {
@@ -242,6 +242,10 @@ func calleeNames(ct *FuncContract, callee *ssa.Function, c *ssa.CallCommon) (nam
 	if c.IsInvoke() {
 		names = append(names, "self")
 		typs = append(typs, c.Value.Type())
+	} else if sig.Recv() != nil {
+		// external (unbuilt) method: the receiver is the first argument
+		names = append(names, "self")
+		typs = append(typs, sig.Recv().Type())
 	}
 	for i := 0; i < sig.Params().Len(); i++ {
 		n := sig.Params().At(i).Name()
@@ -278,8 +282,12 @@ func (x *Exec) applyContract(fr *Frame, st *State, ct *FuncContract, callee *ssa
 	if c.IsInvoke() {
 		vals = append([]Val{*recv}, args...)
 	}
+	scopePkg := ct.PkgPath
+	if scopePkg == "" {
+		scopePkg = fnPkgPath(fr.fn)
+	}
 	mk := func(cur, old *State) *EvalCtx {
-		ctx := &EvalCtx{x: x, fr: fr, st: cur, old: old, pkgPath: ct.PkgPath, vars: map[string]*binding{}, math: ct.Math}
+		ctx := &EvalCtx{x: x, fr: fr, st: cur, old: old, pkgPath: scopePkg, vars: map[string]*binding{}, math: ct.Math}
 		for i, n := range names {
 			if i < len(vals) {
 				ctx.vars[n] = &binding{val: vals[i], typ: typs[i]}
@@ -340,6 +348,25 @@ func (x *Exec) applyContract(fr *Frame, st *State, ct *FuncContract, callee *ssa
 	rn, rtys := resultNames(sig)
 	var rvals []Val
 	for i := range rn {
+		if ct.Deterministic {
+			// a function of its arguments only: repeated calls agree
+			name := fmt.Sprintf("det_%s_%d", sanitize(ct.Key), i)
+			var sorts, ats []string
+			for k, v := range vals {
+				if k < len(typs) {
+					sorts = append(sorts, vc.sortOf(typs[k]))
+					ats = append(ats, v.T)
+				}
+			}
+			vc.uf(name, sorts, vc.sortOf(rtys[i]))
+			t := name
+			if len(ats) > 0 {
+				t = fmt.Sprintf("(%s %s)", name, strings.Join(ats, " "))
+			}
+			vc.assumeTyped(st, t, rtys[i])
+			rvals = append(rvals, Val{T: t})
+			continue
+		}
 		rvals = append(rvals, x.freshTyped(st, "ret_"+shortCallee(c), rtys[i]))
 	}
 	post := mk(st, pre)
@@ -438,6 +465,18 @@ type lval struct {
 // lvalue resolves a modifies item: p.f | *p | s[*] | m (map) | all(T)
 func (c *EvalCtx) lvalue(m string) lval {
 	vc := c.x.vc
+	if strings.HasPrefix(m, "all ") {
+		t := c.x.eng.typeFromText(c.pkgPath, strings.TrimSpace(strings.TrimPrefix(m, "all ")), c.src)
+		switch u := t.Underlying().(type) {
+		case *types.Slice:
+			return lval{kind: "heapkey", key: vc.heapKey("E", u.Elem()), typ: u.Elem()}
+		case *types.Pointer:
+			return lval{kind: "heapkey", key: vc.heapKey("H", u.Elem()), typ: u.Elem()}
+		case *types.Map:
+			return lval{kind: "map", typ: t}
+		}
+		c.fail("modifies %s: unsupported type", m)
+	}
 	if strings.HasSuffix(m, "[*]") {
 		s, t := c.evalText(strings.TrimSuffix(m, "[*]"))
 		sl, ok := t.Underlying().(*types.Slice)
@@ -508,6 +547,22 @@ func (e *Engine) modClauseKeys(vc *VC, ct *FuncContract, callee *ssa.Function, c
 	if strings.HasPrefix(m, "ghost ") {
 		return nil, strings.TrimSpace(strings.TrimPrefix(m, "ghost ")), nil
 	}
+	if strings.HasPrefix(m, "all ") {
+		sp := ct.PkgPath
+		if sp == "" && callee != nil {
+			sp = fnPkgPath(callee)
+		}
+		t := e.typeFromText(sp, strings.TrimSpace(strings.TrimPrefix(m, "all ")), ct.Src)
+		switch u := t.Underlying().(type) {
+		case *types.Slice:
+			return []string{vc.heapKey("E", u.Elem())}, "", nil
+		case *types.Pointer:
+			return []string{vc.heapKey("H", u.Elem())}, "", nil
+		case *types.Map:
+			return []string{vc.heapKey("MH", t), vc.heapKey("MV", t), vc.heapKey("MC", t)}, "", nil
+		}
+		return nil, "", fmt.Errorf("unsupported type in modifies all")
+	}
 	names, typs := calleeNames(ct, callee, c)
 	var vars []scopeVar
 	for i := range names {
@@ -528,7 +583,11 @@ func (e *Engine) modClauseKeys(vc *VC, ct *FuncContract, callee *ssa.Function, c
 		text = strings.TrimPrefix(m, "*")
 		deref = true
 	}
-	ck, err := e.check(ct.PkgPath, vars, text, ct.Src)
+	scopePkg := ct.PkgPath
+	if scopePkg == "" && callee != nil {
+		scopePkg = fnPkgPath(callee)
+	}
+	ck, err := e.check(scopePkg, vars, text, ct.Src)
 	if err != nil {
 		return nil, "", err
 	}
@@ -676,10 +735,13 @@ func (x *Exec) appendOp(fr *Frame, st *State, c *ssa.CallCommon, args []Val, pos
 	if cst, ok := c.Args[1].(*ssa.Const); ok && cst.Value == nil {
 		nKnown = 0
 	}
-	ls := fmt.Sprintf("(s-len %s)", s)
-	lt := fmt.Sprintf("(s-len %s)", t)
-	if nKnown >= 0 {
-		lt = fmt.Sprint(nKnown)
+	// declared constants (not macros): they occur inside quantifier patterns
+	ls := vc.freshConst("app_ls", "Int")
+	vc.assume("true", fmt.Sprintf("(= %s (s-len %s))", ls, s))
+	lt := fmt.Sprint(nKnown)
+	if nKnown < 0 {
+		lt = vc.freshConst("app_lt", "Int")
+		vc.assume("true", fmt.Sprintf("(= %s (s-len %s))", lt, t))
 	}
 	n := vc.define("app_n", "Int", fmt.Sprintf("(+ %s %s)", ls, lt))
 	fits := vc.freshDef("app_fits", "Bool", fmt.Sprintf("(<= %s (s-cap %s))", n, s))
@@ -788,9 +850,9 @@ func (x *Exec) spawn(fr *Frame, st *State, g *ssa.Go) {
 
 func (x *Exec) addGhostVars(ctx *EvalCtx, fr *Frame, st *State) {
 	for g, srt := range fr.ghostLoc {
-		t := types.Type(types.Typ[types.Int])
-		if srt == "Bool" {
-			t = types.Typ[types.Bool]
+		t := fr.ghostTyp[g]
+		if t == nil {
+			t = types.Typ[types.Int]
 		}
 		if _, dup := ctx.vars[g]; dup {
 			continue
@@ -868,6 +930,10 @@ func (x *Exec) ownCtx(fr *Frame, st *State, body bool) *EvalCtx {
 	}
 	x.addGhostVars(ctx, fr, st)
 	return ctx
+}
+
+func (x *Exec) evalClauseInt(fr *Frame, st *State, cl Clause, extra map[string]Val) string {
+	return x.evalClause(fr, st, cl, extra)
 }
 
 func (x *Exec) evalClause(fr *Frame, st *State, cl Clause, extra map[string]Val) string {
